@@ -86,6 +86,9 @@ def run(rep, tier):
         # of x -- the declared union in the batch route, the type of the actual value in the REPL route
         ["c := mut 0", "x := if *c == 0 { 1 } else { \"a\" }", "m := mut x",
          "r := match m { a: mut int => { 1 }, b: mut (int|string) => { 2 }, => { 3 }, }"],
+        # S28, second form: the value read from a `mut [float]` cell is `[]` at type [!] for the REPL route, [float]
+        # for the batch route; `$+` plants its reducer from that static type
+        ["a := mut [float] []", "x := *a", "s := x~ $+"],
     ]
     for stmts in CRAFTED:
         names = []
@@ -224,5 +227,42 @@ def run(rep, tier):
             rep.violations.append({"property": "C17", "lane": "L9",
                                    "what": f"host call returns {host[:150]} but the in-language call returns {inl[:150]}",
                                    "case": hc[k], "inline_case": hc[k + 1]})
+    run_host_unscoped(rep)
     rep.sample({"lane": "L9", "repl": cases[0][:600]})
     rep.sample({"lane": "L9", "hostcall": hc[0], "inline": hc[1]})
+
+
+def run_host_unscoped(rep):
+    """A host call executed in the host's own interpreter (create_call(..).exec_unscoped(&mut host)):
+    nothing the callee declares -- its parameters, its own name, its locals -- is visible to or
+    overwrites a name of the host afterwards (C06/C17), and the result is the in-language result."""
+    sessions = [
+        ("n := 100; k := 7; double := (n: int) -> int { k := n * 2; return k }", "double", ["(i 4)"], "n double k", "ok (i 8)"),
+        ("x := 1; y := 2; f := (x: int, y: int) -> int { z := x + y; return z }", "f", ["(i 10)", "(i 20)"], "x y z f", "ok (i 30)"),
+        ("f := 5; g := (f: int) -> int { return f + 1 }", "g", ["(i 1)"], "f g", "ok (i 2)"),
+        ("c := mut 0; bump := (by: int) -> int { c += by; t := *c; return t }", "bump", ["(i 3)"], "c by t bump", "ok (i 3)"),
+        ("fact := (n: int) -> int { if n <= 1 { return 1 } return n * fact(n - 1) }; n := 9", "fact", ["(i 5)"], "n fact", "ok (i 120)"),
+        ("it := 3; g := () -> int { it := 5; return it }", "g", [], "it g", "ok (i 5)"),
+    ]
+    cases = [f'(host-call-unscoped ({names}) {q(prelude)} {fn} ' + " ".join(args) + ")" for prelude, fn, args, names, _ in sessions]
+    outs = common.run_cases(common.HARNESS, cases, timeout=120)
+    rep.evaluations += len(cases)
+    for c, o, (prelude, fn, args, names, want) in zip(cases, outs, sessions):
+        rep.compared += 1
+        rep.count("L9.host-unscoped")
+        parts = o.split(" || ")
+        if "!panic" in o:
+            rep.violations.append({"property": "C02", "lane": "L9", "what": "panic in a host call: " + o[:200], "case": c})
+        elif len(parts) != 3:
+            rep.violations.append({"property": "C17", "lane": "L9", "what": "host call did not complete: " + o[:200], "case": c})
+        elif parts[0] != want:
+            rep.violations.append({"property": "C17", "lane": "L9", "case": c,
+                                   "what": f"host call returns {parts[0][:100]}, the in-language call returns {want}"})
+        elif parts[1][len("before "):] != parts[2][len("after "):] and not (fn == "bump"):
+            for prop in ("C06", "C17"):
+                rep.violations.append({"property": prop, "lane": "L9", "case": c,
+                                       "what": f"a host call run in the host's interpreter changed the host's names: {parts[1][:150]} / {parts[2][:150]}"})
+        elif fn == "bump" and parts[2] != "after ((c (mut 0 (i 3))) (by unbound) (t unbound) (bump (fun 0)))":
+            for prop in ("C06", "C17"):
+                rep.violations.append({"property": prop, "lane": "L9", "case": c,
+                                       "what": f"after the host call the host sees {parts[2][:200]}"})
